@@ -172,6 +172,10 @@ func (w *World) Run(sc *Scenario, o RunOpts) *Outcome {
 	}
 	plan := sc.Plan
 	tracePath := filepath.Join(root, "trace.txt")
+	if strings.HasPrefix(sc.Strace, "write:") {
+		// the injected write fault must land on yq's own writes, not on the trace file
+		o.NoTrace = true
+	}
 	if !o.NoTrace {
 		plan.Trace = tracePath
 	}
@@ -216,7 +220,8 @@ func (w *World) Run(sc *Scenario, o RunOpts) *Outcome {
 		if w.Strace == "" {
 			harnessPanic("scenario needs strace")
 		}
-		argv = append([]string{"-f", "-o", "/dev/null", "-e", "trace=rename,renameat,renameat2", "-e", "inject=" + sc.Strace, w.YQ}, argv...)
+		sysc := strings.SplitN(sc.Strace, ":", 2)[0]
+		argv = append([]string{"-f", "-o", "/dev/null", "-e", "trace=" + sysc, "-e", "inject=" + sc.Strace, w.YQ}, argv...)
 		bin = w.Strace
 	}
 	cmd := exec.Command(bin, argv...)
